@@ -5,7 +5,8 @@ then store it under /verif/seeded/<name>/ with meta.json."""
 import json, os, shutil, subprocess, sys, glob
 pid = sys.argv[1]
 name = sys.argv[2] if len(sys.argv) > 2 else pid + "-a"
-src = "/tmp/mut/%s/%s" % (pid, "OUT2" if name.endswith("-b") else "OUT3" if name.endswith("-c") else "OUT")
+src = os.environ.get("SRC_DIR") or "/tmp/mut/%s/%s" % (pid, "OUT2" if name.endswith("-b") else "OUT3" if name.endswith("-c") else "OUT")
+pid = os.environ.get("PROP") or pid
 W = "/tmp/selfmut/wt"
 def run(cmd, **kw):
     return subprocess.run(cmd, cwd=W, capture_output=True, text=True, **kw)
